@@ -155,6 +155,7 @@ def knownUnconverted : List (String × String) := [
   ("li", "list_str"), ("li", "nd_str"), ("li", "series_str"), ("li", "strand_str"), ("li", "encoded_ragged"),
   ("li", "dna_ragged"), ("li", "list_none"), ("li", "string_array"), ("li", "table"), ("li", "list_entries"),
   ("li", "nd_obj_int"), ("li", "series_obj_int"), ("inner", "nd_obj_int"), ("inner", "series_obj_int"),
+  ("li", "actg_ragged"), ("li", "actg_flat"), ("inner", "actg_ragged"), ("inner", "actg_flat"),
   ("inner", "nd_int"), ("inner", "nd_float"), ("inner", "nd_bool"), ("inner", "nd_str"), ("inner", "encoded_ragged"),
   ("inner", "dna_ragged"), ("inner", "string_array"), ("inner", "ragged_int"), ("inner", "series_str"), ("inner", "series_int")]
 
